@@ -29,7 +29,7 @@ PROBES = ["src_callable", "src_list", "src_ndarray_int", "src_ndarray_float", "s
           "src_lookup_rebind", "src_const_reuse", "src_const_tuple", "src_const_subclass", "lookup_mixed_text_and_numbers",
           "second_world_same_names", "second_world_removed_a_name_live_here", "second_world_rejects_a_name_live_here",
           "callable_mixing_int_with_float_or_numeric_text", "src_callable_container",
-          "readd_from_callable_reading_own_previous_values"]
+          "readd_from_callable_reading_own_previous_values", "lookup_table_of_lists_with_array_rows"]
 TECHNIQUE = "deterministic simulation: seeded add/remove histories of cell components with injected rejected removals and caller-side buffer mutation vs a per-cell reference table"
 LEVEL_TEXT = ("Seeded search over grid shapes, source kinds and add/remove histories; after every operation the column set, the "
               "position column and every cell of every live component must equal the reference (so no add / remove disturbs "
@@ -334,6 +334,12 @@ def execute(sc, ctx):
                     table = relabel(table)
                     ctx.probe("lookup_mixed_text_and_numbers")
                 vals = [look(p) for p in cells]
+                if src == "lookup_list" and nd >= 2 and not op.get("mixed") and serial % 3 == 0:
+                    # outer levels are lists, the innermost rows numpy arrays (list(array2d), [np.linspace(...) for x in ...])
+                    def rows_to_arrays(t, depth):
+                        return np.array(t) if depth == 1 else [rows_to_arrays(x, depth - 1) for x in t]
+                    table = rows_to_arrays(table, nd)
+                    ctx.probe("lookup_table_of_lists_with_array_rows")
                 gen = LookupGenerator(np.array(table) if src == "lookup_nd" else table)
             st, v = ctx.call(env.add_cell_component, name, gen)
             ctx.event("add", name, src, st)
